@@ -64,6 +64,13 @@ def run(P, rep, tier):
     rep.floor("C05.R2", 3)
     rep.floor("C05.R3", 6)
     rep.floor("C05.R4", 8)
+    # refinement against the pinned tree for every function the rules above looked at (rules/pinned.py)
+    import os as _os
+
+    if not _os.environ.get("MDSA_PINNED_GEN"):
+        from .pinned import refine
+
+        refine(P, rep, ctx, "C05")
 
 
 def r1_refusals(P, rep, ctx):
